@@ -8,7 +8,8 @@ D="/verif/seeded/$SID"
 [ -f "$D/patch.diff" ] || { echo "no such seed $SID"; exit 2; }
 if [ -n "$(git -C /repo status --porcelain --untracked-files=no | grep -v interop/bin)" ]; then echo "/repo is not clean"; exit 2; fi
 git -C /repo apply "$D/patch.diff" || { echo "patch does not apply"; exit 2; }
-trap "git -C /repo checkout -- . ; git -C /verif checkout -- evidence 2>/dev/null" EXIT
+# undo exactly what the patch did (it may have added files), then make sure nothing tracked is left modified
+trap "git -C /repo apply -R \"$D/patch.diff\" 2>/dev/null; git -C /repo checkout -- . ; git -C /verif checkout -- evidence 2>/dev/null" EXIT
 for C in "$@"; do
   OUT="$(cd /verif && ./check "$C" quick 2>&1 | grep -E "^(signature:|VIOLATION|OK|INCONCLUSIVE|KNOWN)" | grep -v "^KNOWN" | tr '\n' ' ')"
   echo "$SID check $C (after strengthening): $OUT" | tee -a "$D/confirm.txt"
